@@ -6,7 +6,7 @@ Require Import Stab Act Spec SpecProofs Gen_GateTable Gen_RevTrack GenProofs_Rev
 Require GenProofs_TabMeas.
 Require Gen_AddError GenProofs_AddError.
 Require Mpp MppRev.
-Require Pauli Sem Refine Run FrameRun RevTrack FrameProg RevProg DemSample DemBridge.
+Require Pauli Sem Refine Run FrameRun RevTrack FrameProg RevProg DemSample DemBridge DemFlat RevExample.
 
 (* (1) Tie G: every unitary undo_* routine of the reverse tracker (translated from sparse_rev_frame_tracker.cc), applied per
        detector to (d in xs[q], d in zs[q]), is the unsigned action of the table's INVERSE gate; nothing refused, nothing
@@ -177,3 +177,14 @@ Theorem C03_circuit_shots_are_the_shots_of_its_error_model :
   DemSample.shot_of (DemBridge.dem_of n extr exta prog ds js) (DemBridge.tgt i).
 Proof. exact DemBridge.circuit_shot_is_dem_shot. Qed.
 Print Assumptions C03_circuit_shots_are_the_shots_of_its_error_model.
+
+(* non-vacuity of the program-level theorems on a concrete round: ZZ measured twice, a detector comparing the two results, an X
+   fault (external bit 0) and a Z fault (external bit 1) on qubit 1 in between.  The checks pass, the sensitivity at the start is the
+   identity, fault 0 is a symptom of the detector and fault 1 is not, and the model's shot with fault 0 fired is exactly {D0}. *)
+Example C03_nonvacuous_repetition_round :
+  Forall (FrameProg.okp 2) RevExample.rep_round /\ RevProg.gauge_okp 2 RevExample.rep_round RevExample.det /\
+  fst (RevProg.bt 2 RevExample.rep_round RevExample.det) = (Pauli.z4_0, [(false, false); (false, false)]) /\
+  DemBridge.symptom 2 RevExample.rep_round RevExample.det 0 = true /\ DemBridge.symptom 2 RevExample.rep_round RevExample.det 1 = false /\
+  (forall x, DemSample.shot_of (DemBridge.dem_of 2 (fun _ => false) (fun j => Nat.eqb j 0) RevExample.rep_round [RevExample.det] [0%nat; 1%nat]) x =
+             (match x with DemFlat.TD 0%N => true | _ => false end)).
+Proof. exact RevExample.rep_round_example. Qed.
